@@ -1168,23 +1168,9 @@ CLAIM = ("Every generated merge / join / merge_asof / concat program was execute
 LEVEL_NOTE = "trusts pandas as the reference, the harness' leftsemi reference and the shared comparison discipline of vf.gen.frames"
 TECHNIQUE = "runtime monitoring: differential oracle against pandas (row multiset, dtypes, order where promised) on every computed join / concatenation; lowered plan observed"
 PENDING = {
-    "merge:broadcast-join-then-merge-on-same-key:rows":
-        "a merge on the key of a preceding BroadcastJoin skips the shuffle (partitioning claimed by "
-        "unique_partition_mapping_columns_from_shuffle): rows lost",
-    "merge:broadcast-join-then-merge-on-same-key:ValueError@local.py:start_state_from_dask":
-        "same mechanism with npartitions=: the second merge is built blockwise over partitions the broadcast join "
-        "does not have ('Missing dependency')",
-    "merge:broadcast-join&npartitions-arg-flips-broadcast-side:rows":
-        "npartitions= <= the smaller partition count: BroadcastJoin derives the broadcast side again and broadcasts the "
-        "preserved side of a left/right/leftsemi join: rows duplicated or lost",
-    "merge:leftsemi&broadcast-join&left-side-broadcast:rows":
-        "how='leftsemi' may broadcast its left input ('leftsemi' != 'left'): left rows repeated per right partition",
+    # labels that remain after the proposed fixes (fixes_ready/C39_01..05): listed in known_findings.d/C39.json
     "merge:broadcast-join&how!=inner&non-broadcast-side-joined-on-index:ValueError@dataframe/backends.py:hash_object_pandas":
         "BroadcastJoin splits the non-broadcast side on left_on/right_on, which is None for left_index/right_index",
-    "merge:column-index&datetime-key&how-keeps-index-side-rows:TypeError@dataframe/multi.py:merge_chunk":
-        "empty output partition of a column-index join on datetime keys: DatetimeIndex.astype(float64) in merge_chunk",
-    "merge:leftsemi&left_index:TypeError@dataframe/dask_expr/_collection.py:merge":
-        "how='leftsemi' with left_index=True: zip over left_on=None",
     "merge:right-operand-is-pandas&left_index&right_on:rows":
         "pandas right operand is turned into an index join: right_on column of left-only rows is NaN, pandas fills the key",
     "merge:null-fill-upcast-decided-per-partition:dtype":
@@ -1198,3 +1184,9 @@ PENDING = {
     "concat0:an-input-is-empty&names-differ:index-name":
         "same for the index name",
 }
+# fixed by fixes_ready/C39_01..05 (labels the predicates of _merge_pred still name, so that a regression is recognisable):
+#   merge:broadcast-join-then-merge-on-same-key:rows / :ValueError@local.py:start_state_from_dask            (01)
+#   merge:broadcast-join&npartitions-arg-flips-broadcast-side:rows                                          (02)
+#   merge:leftsemi&broadcast-join&left-side-broadcast:rows                                                  (03)
+#   merge:column-index&datetime-key&how-keeps-index-side-rows:TypeError@dataframe/multi.py:merge_chunk      (04)
+#   merge:leftsemi&left_index:TypeError@dataframe/dask_expr/_collection.py:merge                            (05; now NotImplementedError -> unsupported)
